@@ -22,6 +22,8 @@ def main(prop: str, tier: str) -> int:
     from checks import replist_check, slots
     replist_check.main(prop, tier, rep=rep, finish=False)
     add_part(rep, 'slots', slots.run(rep, tier, SLOT_KINDS[prop]))
+    from checks import metavalue
+    add_part(rep, 'meta_values', metavalue.run(rep, tier, {'C03': {'frame'}, 'C05': {'tree'}, 'C06': {'reparse'}}[prop]))
     if prop == 'C05':
         try:
             from checks import edits_c05
